@@ -41,11 +41,27 @@ class C16(ParserSessionProp):
         for s in wspec['sentences']:
             tag = gen.hex_to_arr(s['tag'])
             n = tag.shape[0]
-            mode = rng.choice(['none', 'straddle', 'straddle', 'tie', 'flatten', 'far', 'neginf', 'best_zero'])
+            mode = rng.choice(['none', 'straddle', 'straddle', 'tie', 'flatten', 'far', 'neginf', 'best_zero', 'deep', 'deep'])
             s['beam_mode'] = mode
             if mode == 'none' or T < 2:
                 continue
             fav = s.get('favoured')
+            if mode == 'deep':
+                # unnormalised / extremely unsure rows: even the best tag of a word lies near the single-precision
+                # underflow of exp() (about -87 normal, -104 denormal); the other tags are spread far below
+                for i in range(n):
+                    if rng.random() < 0.6:
+                        row = tag[i]
+                        best_t = int(numpy.argmax(row))
+                        shift = rng.choice([80.0, 92.0, 100.0])
+                        row -= numpy.float32(shift)
+                        for t in range(T):
+                            if t != best_t and rng.random() < 0.7:
+                                row[t] = numpy.float32(row[best_t] - rng.choice([5.0, 20.0, 60.0, 150.0, 400.0]))
+                        if fav and rng.random() < 0.5 and fav[i] != best_t:
+                            row[fav[i]] = numpy.float32(row[best_t] - rng.choice([20.0, 60.0, 150.0]))
+                s['tag'] = gen.arr_to_hex(numpy.minimum(tag, 0.0))
+                continue
             for i in range(n):
                 if rng.random() < 0.3:
                     continue
@@ -138,8 +154,12 @@ class C16(ParserSessionProp):
                                                world.memo, world.roots, penalty)
                     except refparser.RefOverflow:
                         lb = None
+                    weakest = min((float(world.tag0[sid][i][t]) for i in range(n) for t in surely[i]), default=0.0)
+                    if cfg['use_beta'] and weakest < -80.0:
+                        # with the filter on, probabilities below the single-precision range of exp() cannot be
+                        # compared with beta * P(best) by any float implementation: no availability claim there
+                        lb = None
                     if lb is not None:
-                        weakest = min(float(world.tag0[sid][i][t]) for i in range(n) for t in surely[i])
                         out.append(Violation(
                             oracle='admitted_tags_available',
                             message=(f'sentence {sid} failed after {p["pops"]} of {p["max_step"]} steps although a derivation '
